@@ -46,6 +46,9 @@ fn tasks() -> Vec<(&'static str, Vec<(&'static str, &'static str)>, Vec<&'static
         ("program against specification: program is not tight", vec![("b.lp", "p :- r. r :- p. r :- q."), ("s.spec", "spec: p <-> q."), ("g.ug", "input: q/0. output: p/0. output: r/0.")], vec![], true),
         ("private recursion through negation", vec![("a.lp", "p :- t. t :- not u. u :- not t."), ("b.lp", "p :- q."), ("g.ug", ug)], vec![], true),
         ("private recursion through negation, right program", vec![("a.lp", "p :- q."), ("b.lp", "p :- t. t :- not u. u :- not t."), ("g.ug", ug)], vec![], true),
+        ("private recursion in the specification program only, through predicates the other program does not have", vec![("a.lp", "t :- not u. u :- not t. p :- t."), ("b.lp", "{p}."), ("g.ug", "output: p/0.")], vec![], true),
+        ("private recursion without extension in the specification program", vec![("a.lp", "t :- not t. p :- t."), ("b.lp", "p."), ("g.ug", "output: p/0.")], vec![], true),
+        ("private recursion in the program only", vec![("a.lp", "{p}."), ("b.lp", "t :- not u. u :- not t. p :- t."), ("g.ug", "output: p/0.")], vec![], true),
         ("private recursion through double negation", vec![("a.lp", "p :- t. t :- not not t."), ("b.lp", "p :- q."), ("g.ug", ug)], vec![], true),
         ("private recursion is not bypassed by --bypass-tightness", vec![("a.lp", "p :- t. t :- not u. u :- not t."), ("b.lp", "p :- q."), ("g.ug", ug)], vec!["--bypass-tightness"], true),
         ("control: negative cycle through a public predicate", vec![("a.lp", "p :- not t. t :- not p, q."), ("b.lp", "p :- not t. t :- not p, q."), ("g.ug", ug)], vec![], false),
@@ -132,7 +135,7 @@ fn reg2(t: &asp::Term) -> bool {
     matches!(t, asp::Term::BinaryOperation { op: asp::BinaryOperator::Interval, lhs, rhs } if reg1(lhs) && reg1(rhs) && !sis(lhs) && !sis(rhs))
 }
 fn regular(r: &asp::Rule) -> bool {
-    let head_ok = r.head.terms().map(|ts| ts.iter().all(|t| reg1(t) || reg2(t))).unwrap_or(true);
+    let head_ok = crate::own::head_terms(&r.head).iter().all(|t| reg1(t) || reg2(t));
     head_ok && r.body.formulas.iter().all(|f| match f {
         asp::AtomicFormula::Literal(l) => l.atom.terms.iter().all(reg1),
         asp::AtomicFormula::Comparison(c) => (reg1(&c.lhs) && reg1(&c.rhs)) || (matches!(c.relation, asp::Relation::Equal) && reg1(&c.lhs) && reg2(&c.rhs)),
@@ -216,7 +219,8 @@ pub fn check(runs: &mut usize, fails: &mut Vec<Failure>) {
         let (rc, err, problems) = match run_verify(&all, &files) { Ok(x) => x, Err(e) => { fails.push(Failure { property: "harness", input, detail: e }); return; } };
         if refused {
             if rc == 0 || !problems.is_empty() {
-                fails.push(Failure { property: "C11", input, detail: format!("must be refused, but anthem exits with {rc} and emits {} problems", problems.len()) });
+                // (C02 as well: the conditions are what makes the emitted obligations mean external equivalence; a task that violates one and is accepted is judged wrongly)
+                for prop in ["C11", "C02"] { fails.push(Failure { property: prop, input: input.clone(), detail: format!("must be refused, but anthem exits with {rc} and emits {} problems", problems.len()) }); }
             } else if rc == 101 || err.contains("panicked at") {
                 fails.push(Failure { property: "C16", input, detail: format!("refused by a panic: {}", err.lines().take(2).collect::<Vec<_>>().join(" / ")) });
             }
